@@ -262,6 +262,9 @@ impl Fragment for Frag {
 
 /// number: "p/q" (q a power of two), "p", "-p", or "x<16 hex digits>" for raw f64 bits
 fn dnum(f: &str) -> f64 {
+    if f == "-0" {
+        return -0.0;
+    }
     if let Some(h) = f.strip_prefix('x') {
         return f64::from_bits(u64::from_str_radix(h, 16).unwrap());
     }
@@ -907,6 +910,12 @@ pub fn emit<W: Write>(fields: &[String], out: &mut W) {
     RECORDS.with(|r| r.borrow_mut().clear());
     TEXTS.with(|r| r.borrow_mut().clear());
     crate::begin_case(&desc);
+    // call history: one case in 32 (a function of the case, hence replayable) is preceded, on
+    // the same thread, by a call that ends in optimal-fit's overflow error -- results must not
+    // depend on what was called before
+    if mode_salt(&desc) % 32 == 0 {
+        poison_call();
+    }
     let res = run(&refs);
     crate::end_case();
     let mut texts = oracle_inputs(&refs);
@@ -925,6 +934,18 @@ pub fn emit<W: Write>(fields: &[String], out: &mut W) {
     });
     writeln!(out, "{}\t@lbc\t{}\t@rec\t{}\t=>\t{}", desc, lbc, rec, res).unwrap();
 }
+
+#[cfg(feature = "full")]
+fn poison_call() {
+    let _ = catch_unwind(AssertUnwindSafe(|| {
+        let w = [Word::from("a "), Word::from("b"), Word::from("c")];
+        let _ = wrap_optimal_fit(&w, &[1e200, 3.0], &Penalties::new());
+        let frs: Vec<Frag> = (0..12).map(|_| Frag(1e306, 0.0, 0.0)).collect();
+        let _ = wrap_optimal_fit(&frs, &[1.0], &Penalties::new());
+    }));
+}
+#[cfg(not(feature = "full"))]
+fn poison_call() {}
 
 pub fn replay<W: Write>(fields: &[&str], out: &mut W) {
     let owned: Vec<String> = fields.iter().map(|s| s.to_string()).collect();
@@ -1020,6 +1041,15 @@ fn gen_num(r: &mut Rng, frac: bool, neg: bool) -> String {
         _ => r.below(4) as i64,
     };
     let v = if neg && r.chance(1, 6) { -v } else { v };
+    if frac && r.chance(1, 12) {
+        // a tiny dyadic excess or deficit (exact in f64): v +- k/2^40
+        let q: i64 = 1 << 40;
+        let k = r.range(1, 3) as i64 * if r.chance(1, 2) { 1 } else { -1 };
+        let num = v.abs().min(1000) * q + k;
+        if num > 0 {
+            return format!("{}/{}", num, q);
+        }
+    }
     if frac && r.chance(1, 3) {
         let q = *r.pick(&[2i64, 4, 8]);
         format!("{}/{}", v * q + r.below(q as usize) as i64 * if v < 0 { -1 } else { 1 }, q)
@@ -1061,7 +1091,7 @@ fn gen_lws(r: &mut Rng, frac: bool, maxlen: usize) -> String {
     }
     (0..n)
         .map(|_| match r.below(8) {
-            0 => "0".to_string(),
+            0 => if frac && r.chance(1, 4) { "-0".to_string() } else { "0".to_string() },
             1 => "1".to_string(),
             _ => {
                 if frac && r.chance(1, 4) {
@@ -1188,7 +1218,137 @@ fn inject_extra_chars(mut f: Vec<String>, r: &mut Rng) -> Vec<String> {
     f
 }
 
+/// Size targets named by VERIF_EXTRA_SIZES (decimal, space separated): integer literals the
+/// current source has and the baseline copy has not (tools/harvest.py) -- a block size, a
+/// cache bound, a length limit.  When set, a small share of the generated cases is built
+/// around each target: that many (+-1, x1.5) words, paragraphs, lines, fragments, bytes or
+/// characters inside one escape sequence.  Unset on an unchanged tree.
+fn extra_sizes() -> &'static Vec<usize> {
+    static SIZES: std::sync::OnceLock<Vec<usize>> = std::sync::OnceLock::new();
+    SIZES.get_or_init(|| {
+        std::env::var("VERIF_EXTRA_SIZES").unwrap_or_default().split_whitespace().filter_map(|x| x.parse().ok()).collect()
+    })
+}
+
+fn sized_case(mode: &str, r: &mut Rng, s0: usize) -> Option<Vec<String>> {
+    let n = match r.below(5) {
+        0 => s0.saturating_sub(1),
+        1 => s0,
+        2 => s0 + 1,
+        3 => s0 + s0 / 2,
+        _ => s0 + r.below(4),
+    }
+    .max(1);
+    let small = ["a", "be", "foo", "text", "wörd", "日本", "x-y", "item"];
+    // many-paragraph texts are cheap for the model only with first-fit and the ASCII separator
+    let many_paragraphs = std::cell::Cell::new(false);
+    let sized_text = |r: &mut Rng| -> String {
+        let v = if s0 > 8192 { *r.pick(&[2usize, 2, 2, 3]) } else { r.below(4) };
+        many_paragraphs.set(v == 1 || v == 3);
+        match v {
+            // one paragraph of n words
+            0 => (0..n).map(|_| r.ps(&small)).collect::<Vec<_>>().join(" "),
+            // n one-line paragraphs
+            1 => (0..n).map(|k| format!("item number {}", k)).collect::<Vec<_>>().join("\n"),
+            // a paragraph just over n bytes, a rarer whitespace character right after the n-th byte's word
+            2 => {
+                let mut t = String::new();
+                while t.len() + 5 <= n {
+                    t.push_str("word ");
+                }
+                t.push_str(r.ps(&["\t", "\u{a0}", "\u{3000}", " ", "", "\u{200b}"]));
+                t.push_str("foobarbaz and a few more words to wrap");
+                t
+            }
+            // n paragraphs of a few words each (several lines per paragraph at small widths)
+            _ => (0..n.min(40000)).map(|k| format!("paragraph {} of the text talks", k)).collect::<Vec<_>>().join("\n"),
+        }
+    };
+    let sized_opts = |r: &mut Rng, t: &str| -> OptSpec {
+        let mut o = gen_opts(r, "short probe");
+        o.w = *r.pick(&[20usize, 36, 40, 80, 1 << 30]);
+        if r.chance(1, 2) {
+            o.ii = "* ".to_string();
+            o.si = "  ".to_string();
+        }
+        o.spl = *r.pick(&[0u8, 1]);
+        if many_paragraphs.get() || s0 > 8192 {
+            o.alg = None;
+            o.unicode = false;
+        }
+        let _ = t;
+        o
+    };
+    match mode {
+        "of" | "ff" => {
+            let frs: Vec<String> = (0..n).map(|_| format!("{}:{}:0", r.below(7), r.below(2))).collect();
+            let lws = match r.below(3) {
+                0 => (n * 10).to_string(),
+                1 => r.range(8, 40).to_string(),
+                _ => format!("{},{}", r.range(8, 40), r.range(8, 40)),
+            };
+            if mode == "of" {
+                Some(vec!["of".into(), frs.join(","), lws, "1000:2500:4:25:25".into()])
+            } else {
+                Some(vec!["ff".into(), frs.join(","), lws])
+            }
+        }
+        "walg" => {
+            let ws: Vec<String> = (0..n).map(|_| format!("{}/{}/_/2", enc::s("ab"), enc::s(" "))).collect();
+            let lws = if r.chance(1, 2) { (n * 4).to_string() } else { format!("{},{}", r.range(8, 40), r.range(8, 40)) };
+            let alg = if cfg!(feature = "full") && r.chance(1, 2) { "of:1000:2500:4:25:25" } else { "ff" };
+            Some(vec!["walg".into(), ws.join(","), lws, alg.into()])
+        }
+        "wrap" | "fill" | "fill2" | "fills" | "refill" | "wrap13" => {
+            let t = sized_text(r);
+            let o = sized_opts(r, &t);
+            Some(vec![mode.into(), o.enc(), enc::s(&t)])
+        }
+        "wrap9" => {
+            let t = sized_text(r);
+            let o = sized_opts(r, &t);
+            Some(vec!["wrap9".into(), o.enc(), enc::s(&t), enc::s("tail text to wrap after it"), enc::s("other")])
+        }
+        "wsl" => {
+            let t = sized_text(r).replace('\n', " ");
+            let o = sized_opts(r, &t);
+            Some(vec!["wsl".into(), o.enc(), if r.chance(1, 2) { "1" } else { "0" }.into(), enc::s(&t)])
+        }
+        "dw" => {
+            let fill: String = match r.below(3) {
+                0 => "1".repeat(n),
+                1 => "1;".repeat(n / 2 + 1),
+                _ => "a".repeat(n),
+            };
+            let t = if r.chance(1, 2) { format!("Hello\x1b]8;;{}\x1b\\, World!", fill) } else { format!("ab\x1b[{}mcd", fill.replace('a', "3")) };
+            Some(vec!["dw".into(), enc::s(&t)])
+        }
+        "indent" => Some(vec!["indent".into(), enc::s(&sized_text(r)), enc::s("> ")]),
+        "dedent" | "unfill" | "std" => Some(vec![mode.into(), enc::s(&sized_text(r))]),
+        "fip" => Some(vec!["fip".into(), enc::s(&sized_text(r)), r.range(5, 60).to_string()]),
+        _ => None,
+    }
+}
+
 pub fn generate<W: Write>(mode: &str, r: &mut Rng, out: &mut W) {
+    let sizes = extra_sizes();
+    if !sizes.is_empty() {
+        let s0 = sizes[r.below(sizes.len())];
+        // big targets are expensive for the model: keep them rare
+        let one_in = if s0 > 8192 { 1200 } else if s0 > 512 { 400 } else { 40 };
+        // and bounded per process, so that a size literal in a change costs minutes at most
+        static LARGE: std::sync::atomic::AtomicUsize = std::sync::atomic::AtomicUsize::new(0);
+        let budget_left = s0 <= 512 || LARGE.load(std::sync::atomic::Ordering::Relaxed) < if s0 > 8192 { 1 } else { 4 };
+        if budget_left && r.chance(1, one_in) {
+            if s0 > 512 {
+                LARGE.fetch_add(1, std::sync::atomic::Ordering::Relaxed);
+            }
+            if let Some(f) = sized_case(mode, r, s0) {
+                emit(&f, out);
+                return;
+            }
+        }
+    }
     let f: Vec<String> = match mode {
         "dw" => {
             let t = match r.below(5) {
@@ -1244,7 +1404,7 @@ pub fn generate<W: Write>(mode: &str, r: &mut Rng, out: &mut W) {
         }
         "hp" => {
             let t = match r.below(3) {
-                0 => gen::text_over(r, &["a", "-", "é", "1", "_", "Ｈ", "\u{301}", " "], 9),
+                0 => gen::text_over(r, &["a", "-", "é", "1", "_", "Ｈ", "\u{301}", " ", "²", "٣", "½", "５", "①"], 9),
                 _ => gen_word(r),
             };
             vec!["hp".into(), enc::s(&t)]
